@@ -49,8 +49,15 @@ func roundTripValue(g *gen.G, d int, tomlSafe bool) any {
 	}
 	if g.P(0.55) {
 		m := map[string]any{}
-		for i := g.N(4); i > 0; i-- {
+		nk := g.N(4)
+		if d >= 2 && g.P(0.04) {
+			nk = 12 + g.N(30) // the large regime: many keys
+		}
+		for i := nk; i > 0; i-- {
 			k := lookAlike(g)
+			if nk > 4 {
+				k = fmt.Sprintf("%s-%d", k, i)
+			}
 			if g.P(0.4) {
 				k = g.Pick([]string{"a", "b", "name", "k1"})
 			}
@@ -59,7 +66,11 @@ func roundTripValue(g *gen.G, d int, tomlSafe bool) any {
 		return m
 	}
 	l := []any{}
-	for i := g.N(4); i > 0; i-- {
+	nl := g.N(4)
+	if d >= 2 && g.P(0.04) {
+		nl = 15 + g.N(50) // the large regime: long lists
+	}
+	for i := nl; i > 0; i-- {
 		l = append(l, roundTripValue(g, d-1, tomlSafe))
 	}
 	return l
